@@ -127,8 +127,15 @@ class Ctx:
         cmd = ["go", "build", "-tags", tags, "-o", out]
         if race:
             cmd.append("-race")
-        cmd.append("./cmd/" + pkg)
         self._sync_gosum()
+        if REPO != "/repo":
+            # development aid (seed regressions in parallel on scratch copies of the repository): the same harness module with its
+            # replace directive pointed at VERIF_REPO. The registered commands never set VERIF_REPO.
+            mf = self.path("bin", "go.alt.mod")
+            open(mf, "w").write(open(os.path.join(HARNESS, "go.mod")).read().replace("=> /repo", "=> " + REPO))
+            open(self.path("bin", "go.alt.sum"), "w").write(open(os.path.join(HARNESS, "go.sum")).read())
+            cmd.append("-modfile=" + mf)
+        cmd.append("./cmd/" + pkg)
         r = subprocess.run(cmd, cwd=HARNESS, env=goenv(), stdout=subprocess.PIPE, stderr=subprocess.STDOUT, text=True)
         if r.returncode != 0:
             raise Machinery("go build of harness %s failed (does /repo still compile?):\n%s" % (pkg, r.stdout[-4000:]))
